@@ -86,7 +86,7 @@ REAL_WITNESS = {
     24: ("HyperElastic", [NS, DIR2, LOAD, SOLVE, {"op": "param", "name": "K", "value": 2.0e4}]),
     25: ("PhaseField", PF_PRE + [GKD, GK, {"op": "param", "name": "Gc", "value": 1.1}]),
     27: ("PhaseField", PF_PRE + [SOLVE, {"op": "saveiter", "i": 0}, PULL, SOLVE, GKD, GK, {"op": "setiter", "i": 0, "j": 0}]),
-    29: ("PhaseField", PF_PRE + [GK, SOLVE]),
+    29: ("PhaseField", PF_PRE + [SOLVE, GK, PULL, SOLVE]),  # first solve gives d = 0; the second one changes the damage
     30: ("PhaseField", PF_PRE + [SOLVE]),
     31: ("Elastic", [NS, NEWMESH, GK, {"op": "setmesh", "i": 0, "m": 1}]),
     32: ("Beam", [NS, {"op": "dirichlet", "i": 0, "where": "clamp", "values": [0.0, 0.0, 0.0]}, GK, {"op": "lagrange", "i": 0, "where": "corner"}]),
@@ -109,8 +109,10 @@ for k, op in enumerate(case["ops"]):
 r = H.run_case(case)
 if r["error"]:
     print("the op sequence RAISED at op %%d: %%s" %% (r["error"]["at"], r["error"]["what"]))
-    print("expected: behaves like a simulation built directly in the final configuration (no exception)")
-    sys.exit(1)
+    far = r["error"].get("fresh_also_raises")
+    print("the same op on a simulation freshly built in the configuration reached before it:", "raises too -> " + str(far) if far else "does not raise" if far is False else "undecided")
+    print("expected: behaves like a simulation built directly in the final configuration")
+    sys.exit(0 if far else 1)
 print("update flags after each op:", r["flags"])
 bad = False
 for i, s in enumerate(r["sims"]):
@@ -238,8 +240,12 @@ def gen_case(rng, typ, maxlen):
             if typ == "PhaseField":
                 ops.append({"op": "dirichlet", "i": i, "where": "right", "values": [pv(0.0005, 0.003), 0.0]})
             if typ == "HyperElastic":
-                ops.append({"op": "neumann", "i": i, "where": "right", "values": [pv(5, 20), 0.0]})
+                ops.append({"op": "neumann", "i": i, "where": "right", "values": [pv(1, 5), 0.0]})
             st[i]["dir"] = True
+        if typ == "Beam" and not st[i]["lag"]:
+            # the two beams only share a duplicated node: without the connection the system is singular
+            ops.append({"op": "lagrange", "i": i, "where": "corner"})
+            st[i]["lag"] = True
 
     n = rng.randint(4, maxlen)
     while len(ops) < n:
@@ -345,6 +351,9 @@ def gen_case(rng, typ, maxlen):
                 s["dir"] = False
                 s["lag"] = False
                 s["solved"] = False
+    # the final comparison solves: make the sequence itself well-posed so that the model sees every op
+    for i in range(nsims):
+        ensure_dir(i)
     return {"type": typ, "ops": ops}
 
 
@@ -353,8 +362,9 @@ def shrink(ctx, case, still_bad):
     cur = case
     for _ in range(12):
         cands = []
+        ndir = sum(1 for o in cur["ops"] if o["op"] == "dirichlet" and not o.get("damage"))
         for k, op in enumerate(cur["ops"]):
-            if op["op"] == "newsim":
+            if op["op"] == "newsim" or (op["op"] == "dirichlet" and ndir <= 1):
                 continue
             cands.append({"type": cur["type"], "ops": cur["ops"][:k] + cur["ops"][k + 1:]})
         if not cands:
@@ -375,7 +385,7 @@ def shrink(ctx, case, still_bad):
 
 
 def is_bad(r):
-    return bool(r["error"]) or any(s["mismatch"] and not s.get("harness_error") for s in r["sims"])
+    return bool(r["error"] and not r["error"].get("fresh_also_raises")) or any(s["mismatch"] and not s.get("harness_error") for s in r["sims"])
 
 
 # ---- static build with a fallback when another property's file is broken ----------------------------------------------
@@ -484,7 +494,7 @@ def run(ctx):
         ctx.obligation("corr:run", False, str(ex)[-1500:])
         ctx.violation("corr:harness", "correspondence harness failed: %s" % str(ex)[-300:], {"log": str(ex)[-3000:]}, found_input=False)
         return
-    stats = {"explained_by_failing_entries": 0, "benign_value_coincidence": 0, "agree_fresh": 0, "flag_steps": 0, "errors": 0}
+    stats = {"explained_by_failing_entries": 0, "benign_value_coincidence": 0, "agree_fresh": 0, "flag_steps": 0, "errors": 0, "invalid_sequences": 0}
     dist = {}
     flag_bad, unexplained, harness_err = [], [], []
     for c, r, p in zip(cases, impl, pred):
@@ -501,7 +511,9 @@ def run(ctx):
             stats["errors"] += 1
             k = r["error"]["at"]
             stale_before = any(p[j][1] for j in range(max(0, k - 1), min(len(p), k + 1)))
-            if stale_before and failing:
+            if r["error"].get("fresh_also_raises"):
+                stats["invalid_sequences"] += 1   # the op raises on a freshly built simulation too
+            elif stale_before and failing:
                 stats["explained_by_failing_entries"] += 1
             else:
                 unexplained.append((c, r, "raised at op %d: %s" % (k, r["error"]["what"])))
@@ -521,6 +533,11 @@ def run(ctx):
                 stats["agree_fresh"] += 1
         ctx.note_case("%s:%s" % (c["type"], ",".join(kinds)))
     ctx.cov["corr_sequences"] = ncases
+    ctx.cov["rule"] = ("op sequences (4..12 ops after the constructors, plus inserted boundary conditions) drawn from ctx.rng over the public mutators "
+                       "valid for the simulation type (parameter sets with fresh values, Translate/Rotate/Symmetry/coord=, simu.mesh=, rho, Rayleigh, "
+                       "Bc_Init/add_dirichlet/add_neumann/add_connection, time-scheme switches, Get_K_C_M_F, Solve, Save_Iter/Set_Iter), 1-2 simulations "
+                       "sharing one model and possibly one mesh; a case counts as distinct non-trivial by (simulation type, set of op kinds used); "
+                       "every case contains at least one mutator")
     ctx.cov["corr_type_distribution"] = dist
     ctx.cov["corr_op_length_max"] = max(len(c["ops"]) for c in cases)
     ctx.cov["corr_stats"] = stats
